@@ -82,9 +82,28 @@ class _RealRecorder:
         od = rnd.default_rng
         self.saved["default_rng"] = od
 
+        rec = self
+
+        class _Proxy:
+            """an unseeded generator counts only once something is drawn from it"""
+
+            def __init__(self, g, site):
+                self._g, self._site, self._hit = g, site, False
+
+            def __getattr__(self, name):
+                attr = getattr(self._g, name)
+                if callable(attr) and not name.startswith("_") and name not in ("bit_generator",):
+                    def call(*a, **k):
+                        if not self._hit:
+                            self._hit = True
+                            rec.log.append(dict(stream="E", method="default_rng", site=self._site))
+                        return attr(*a, **k)
+                    return call
+                return attr
+
         def drng(seed=None):
             if seed is None:
-                self.log.append(dict(stream="E", method="default_rng", site=_callsite()))
+                return _Proxy(od(), _callsite())
             return od(seed)
         rnd.default_rng = drng
         return self
@@ -210,6 +229,42 @@ def _train_screen(ctx):
     return concrete_screen(ctx, ROWS_G, observations=[0.5, 0.7, 0.2, 0.9], mask=[True, True, True, False])
 
 
+class _CheapLapack:
+    """stream accounting does not depend on the numbers: LAPACK results are unconstrained fresh values here
+    (the contracts are exercised by C08), which keeps the path condition linear"""
+
+    def __init__(self, ctx):
+        self.ctx = ctx
+
+    def __enter__(self):
+        ctx = self.ctx
+        if ctx.mode == "real":
+            return self
+        np = ctx.np
+        self.la, self.sl = ctx.L.shims["numpy.linalg"], ctx.L.shims["scipy.linalg"]
+        self.saved = (self.la.cholesky, self.sl.solve_triangular, self.sl.cho_solve)
+        k = [0]
+
+        def fresh_like(shape):
+            n = 1
+            for d in shape:
+                n *= d
+            vals = []
+            for _ in range(n):
+                k[0] += 1
+                vals.append(ctx.real("lapack%d" % k[0]))
+            return np.array(vals, dtype=float).reshape(shape)
+        self.la.cholesky = lambda Q: fresh_like(Q.shape)
+        self.sl.solve_triangular = lambda A, b, lower=False, **kw: fresh_like(b.shape)
+        self.sl.cho_solve = lambda cl, b, **kw: fresh_like(b.shape)
+        return self
+
+    def __exit__(self, *a):
+        if self.ctx.mode != "real":
+            self.la.cholesky, self.sl.solve_triangular, self.sl.cho_solve = self.saved
+        return False
+
+
 def h_gibbs(ctx, cfg):
     data = ctx.mod("batchie.data")
     core = ctx.mod("batchie.core")
@@ -221,7 +276,7 @@ def h_gibbs(ctx, cfg):
     else:
         model = ctx.mod("batchie.models.sparse_combo_interaction").SparseDrugComboInteraction(experiment_space=es, n_embedding_dimensions=1)
     model.add_observations(screen.subset_observed())
-    with _Streams(ctx) as st:
+    with _Streams(ctx) as st, _CheapLapack(ctx):
         sampling.sample(model, core.ThetaHolder(n_thetas=1), seed=3, n_chains=2, chain_index=1, n_burnin=1, thin=1)
     return _judge(ctx, st, "model training (%s)" % cfg["model"])
 
@@ -310,7 +365,7 @@ def h_cli_train(ctx, cfg):
     screen = _train_screen(ctx)
     sfn = ctx.tmp("train.h5")
     screen.save_h5(sfn)
-    with _Streams(ctx) as st:
+    with _Streams(ctx) as st, _CheapLapack(ctx):
         cli_main(ctx, "batchie.cli.train_model", data=sfn, model_cls=sc.SparseDrugCombo, model_params={"n_embedding_dimensions": 1},
                  output=ctx.tmp("thetas.h5"), n_samples=1, n_burnin=0, thin=1, n_chains=1, chain_index=0, seed=5)
     return _judge(ctx, st, "train_model --seed")
